@@ -71,7 +71,8 @@ def space(tier, seed):
     for cfg in battery_menu(tier):
         for soc in soc_lattice(cfg):
             for v in (120, 208, 240):
-                for period in (1, 5, 60):
+                # 8 and 45 minutes do not divide an hour (quick: on the 208 V column only)
+                for period in (1, 5, 60) + ((8, 45) if (tier == "thorough" or v == 208) else ()):
                     items.append({"part": "battery", "cfg": cfg, "soc": soc, "v": v, "period": period, "L": b["L"], "D": b["noise_deviations"]})
     # (b) simulation cells: reuse the ledger scenario space on the heterogeneous network
     for scn in c02.space("quick", seed):
